@@ -143,6 +143,7 @@ func guard(f func() error) (err error, panicked bool) {
 }
 
 var digitsRE = regexp.MustCompile(`[0-9]+`)
+var goTypeRE = regexp.MustCompile(`types\.[A-Za-z]+`)
 
 func errClass(msg string) string {
 	parts := strings.Split(msg, ": ")
@@ -150,6 +151,7 @@ func errClass(msg string) string {
 		parts = parts[len(parts)-2:]
 	}
 	s := digitsRE.ReplaceAllString(strings.Join(parts, ":"), "N")
+	s = goTypeRE.ReplaceAllString(s, "types.T") // which object a stray reference happens to hit is incidental
 	s = strings.Map(func(r rune) rune {
 		if r == ' ' {
 			return '_'
